@@ -37,6 +37,8 @@ type mutant struct {
 	File   string `json:"file"` // relative to repo root
 	Old    string `json:"old"`
 	New    string `json:"new"`
+	Old2   string `json:"old2,omitempty"` // optional second edit in the same file
+	New2   string `json:"new2,omitempty"`
 	Expect string `json:"expect"` // rule id expected to fire
 	Why    string `json:"why"`
 }
@@ -171,6 +173,12 @@ func applyMutant(repo string, m mutant) (map[string][]byte, error) {
 		return nil, fmt.Errorf("anchor text occurs %d times in %s (need exactly 1)", n, m.File)
 	}
 	s = strings.Replace(s, m.Old, m.New, 1)
+	if m.Old2 != "" {
+		if n := strings.Count(s, m.Old2); n != 1 {
+			return nil, fmt.Errorf("second anchor text occurs %d times in %s (need exactly 1)", n, m.File)
+		}
+		s = strings.Replace(s, m.Old2, m.New2, 1)
+	}
 	return map[string][]byte{path: []byte(s)}, nil
 }
 
@@ -337,6 +345,11 @@ func runMutants(prop, repo, vdir string, res *runResult) {
 				st = "inapplicable"
 			case strings.Contains(s, "FATAL"):
 				st = "fatal: " + firstLine(s)
+			case m.Expect == "" && strings.Contains(s, "VIOLATION property="+prop):
+				// behaviour-preserving variant: any report is a false alarm
+				st = "false-alarm: " + firstLine(s)
+			case m.Expect == "":
+				st = "silent-as-required"
 			case strings.Contains(s, " "+m.Expect+" ") && strings.Contains(s, "VIOLATION property="+prop):
 				st = "detected"
 			case strings.Contains(s, "VIOLATION property="+prop):
@@ -346,8 +359,17 @@ func runMutants(prop, repo, vdir string, res *runResult) {
 		}(i, m)
 	}
 	wg.Wait()
-	det, app := 0, 0
+	det, app, neg, negOK := 0, 0, 0, 0
 	for _, r := range out {
+		if r.Expect == "" {
+			if r.Status != "inapplicable" {
+				neg++
+				if r.Status == "silent-as-required" {
+					negOK++
+				}
+			}
+			continue
+		}
 		if r.Status != "inapplicable" {
 			app++
 		}
@@ -355,13 +377,19 @@ func runMutants(prop, repo, vdir string, res *runResult) {
 			det++
 		}
 	}
+	res.Extra["equivalent_variants"] = neg
+	res.Extra["equivalent_variants_silent"] = negOK
 	res.Extra["mutants_total"] = len(ms)
 	res.Extra["mutants_applicable"] = app
 	res.Extra["mutants_detected"] = det
 	res.Extra["mutants"] = out
-	fmt.Printf("%s self-validation: %d/%d applicable mutants detected\n", prop, det, app)
+	fmt.Printf("%s self-validation: %d/%d applicable mutants detected", prop, det, app)
+	if neg > 0 {
+		fmt.Printf("; %d/%d behaviour-preserving variants left unreported", negOK, neg)
+	}
+	fmt.Println()
 	for _, r := range out {
-		if !strings.HasPrefix(r.Status, "detected") && r.Status != "inapplicable" {
+		if !strings.HasPrefix(r.Status, "detected") && r.Status != "inapplicable" && r.Status != "silent-as-required" {
 			fmt.Printf("  SELFTEST-WEAK mutant %s expected %s: %s\n", r.Name, r.Expect, r.Status)
 		}
 	}
